@@ -557,26 +557,29 @@ func (w *World) buildQuery(f *FuncCtx, o *Obligation) string {
 	needed := map[int]bool{}
 	// fixpoint: include spec funcs referenced from body or from included spec funcs / axioms
 	var axIncl []bool = make([]bool, len(w.axiomSMT))
-	specSyms := make([]map[string]bool, len(w.specSMT))
-	specName := make([]string, len(w.specSMT))
-	for i, s := range w.specSMT {
-		specSyms[i] = symbolsIn(s)
-		toks := sexpTokens(s)
-		if len(toks) > 2 {
-			specName[i] = toks[2]
+	w.symOnce.Do(func() {
+		w.specSyms = make([]map[string]bool, len(w.specSMT))
+		w.specName = make([]string, len(w.specSMT))
+		for i, s := range w.specSMT {
+			w.specSyms[i] = symbolsIn(s)
+			toks := sexpTokens(s)
+			if len(toks) > 2 {
+				w.specName[i] = toks[2]
+			}
 		}
-	}
-	axSyms := make([]map[string]bool, len(w.axiomSMT))
-	for i, a := range w.axiomSMT {
-		axSyms[i] = symbolsIn(a)
-	}
-	userSym := map[string]bool{}
-	for _, n := range specName {
-		userSym[n] = true
-	}
-	for _, fn := range w.preludeFuns() {
-		userSym[fn] = true
-	}
+		w.axSyms = make([]map[string]bool, len(w.axiomSMT))
+		for i, a := range w.axiomSMT {
+			w.axSyms[i] = symbolsIn(a)
+		}
+		w.userSym = map[string]bool{}
+		for _, n := range w.specName {
+			w.userSym[n] = true
+		}
+		for _, fn := range w.preludeFuns() {
+			w.userSym[fn] = true
+		}
+	})
+	specSyms, specName, axSyms, userSym := w.specSyms, w.specName, w.axSyms, w.userSym
 	changed := true
 	for changed {
 		changed = false
@@ -695,6 +698,9 @@ func (w *World) buildQuery(f *FuncCtx, o *Obligation) string {
 	}
 	q.WriteString(bodyS)
 	q.WriteString("(check-sat)\n(get-model)\n")
+	if o.Expect == "sat" {
+		q.WriteString(";cover\n") // vacuity guards: an inconclusive answer is cached too (only `unsat` is a failure)
+	}
 	return q.String()
 }
 
